@@ -41,6 +41,13 @@ Theorem reachable_cutoff_spec : forall m U pick maxs fuel,
 Proof. intros m U pick maxs fuel Hfin. exact (reachable_cutoff_spec_thm m U Hfin pick maxs fuel). Qed.
 Print Assumptions reachable_cutoff_spec.
 
+(* the cut-off is an upper limit too: with max_states <= |positive initial support| (max_states = 0, 1, ...)
+   nothing is expanded and the result is exactly the positive initial support, whatever the pop order *)
+Theorem reachable_cutoff_stop : forall m pick k fuel,
+  (k <= length (init_support m))%nat -> reachable m pick (Some k) fuel = init_support m.
+Proof. exact reachable_cutoff_stop_thm. Qed.
+Print Assumptions reachable_cutoff_stop.
+
 (* the property's own wording (absorbing states never expanded) is refuted by an absorbing
    initial state with a successor ... *)
 Theorem reachable_spec_full_refuted :
